@@ -249,13 +249,13 @@ class DQN(RLAlgorithm):
 
         # Masked random actions
         # NOTE: Masked entries must lose against a legal action that draws exactly zero
-        masked_random_values = torch.rand_like(q_values).masked_fill(
-            (1 - action_mask).bool(), -1.0
-        )
+        # NOTE: logical_not also accepts boolean masks (1 - mask is not defined for them)
+        illegal = action_mask.logical_not()
+        masked_random_values = torch.rand_like(q_values).masked_fill(illegal, -1.0)
         masked_random_actions = torch.argmax(masked_random_values, dim=-1)
 
         # Masked policy actions
-        masked_q_values = q_values.masked_fill((1 - action_mask).bool(), float("-inf"))
+        masked_q_values = q_values.masked_fill(illegal, float("-inf"))
         masked_policy_actions = torch.argmax(masked_q_values, dim=-1)
 
         # actions_random = torch.randint_like(actions, n_act)
